@@ -33,4 +33,10 @@ def jde0 (year : Int) (k : Fin 4) : ℝ :=
     (radians; Meeus 13.6). -/
 def sinAltitude (φ δ H : ℝ) : ℝ := Real.sin φ * Real.sin δ + Real.cos φ * Real.cos δ * Real.cos H
 
+/-- Geometric mean longitude of the Sun referred to the mean equinox of the date, degrees
+    (Meeus 28.2), `τ` in Julian millennia from J2000.0:
+    L0 = 280.4664567 + 360007.6982779 τ + 0.03032028 τ² + τ³/49931 − τ⁴/15300 − τ⁵/2000000. -/
+def meanLongitude (τ : ℝ) : ℝ :=
+  280.4664567 + 360007.6982779 * τ + 0.03032028 * τ ^ 2 + τ ^ 3 / 49931 - τ ^ 4 / 15300 - τ ^ 5 / 2000000
+
 end Pymeeus.Spec.SunEvents
